@@ -758,6 +758,8 @@ def startTraversal (ver kind numAtt numVerts numFaces : Nat) : DecM Trav := do
     let mut ctxCnt : Array Int := #[]
     -- min_valence_ = 2, max_valence_ = 7
     for _ in [0:6] do
+      -- offset of this context's symbol count (structure-aware corruption campaigns)
+      tag s!"at:valence_context_count:{← remaining}"
       let n ← varint 32
       require (n ≤ numFaces)
       if n > 0 then
